@@ -1291,11 +1291,13 @@ def run(ctx):
         if not is_known(key):
             # confirm the steepest family alone before reporting
             x = xs[0]
-            tt = []
-            for i in x["ids"]:
-                inp = gen.inputs[i]
-                rr = run_single(h, [i, x["ep"], hexs(inp["name"]), inp["spec"]], x["ep"], ctx.tmp, "sup_%s" % i)
-                tt.append(rr[3] if rr[2] in ("ok", "err") else None)
+            i1, i2 = x["ids"]
+            a, b = gen.inputs[i1], gen.inputs[i2]
+            # one child process: the small input twice (the first call pays one-off initialisation), then the large one
+            rr = run_batch(h, ["w %s %s %s" % (x["ep"], hexs(a["name"]), a["spec"]), "s %s %s %s" % (x["ep"], hexs(a["name"]), a["spec"]),
+                               "l %s %s %s" % (x["ep"], hexs(b["name"]), b["spec"])], ctx.tmp, "sup_" + re.sub(r"\W+", "_", key))
+            got = {r[0]: r for r in rr}
+            tt = [got[k][3] if k in got and got[k][2] in ("ok", "err") else None for k in ("s", "l")]
             if None in tt or tt[1] < MIN_T2 or tt[1] < (S2 / S1) ** MIN_EXP * max(tt[0], 1000):
                 ctx.notes.append("unconfirmed super-linear growth (not reproduced when run alone, not reported): %s %s" % (key, fams_txt))
                 continue
